@@ -429,6 +429,141 @@ theorem std_key_roundtrip (k : Bytes) :
     have : (k.drop 32).length = 32 := by simp [h64]
     rw [List.take_append_of_le_length (by omega), List.take_of_length_le (by omega)]
 
+/-! ### Equals: true exactly for the same key -/
+
+/-- `k.Equals(o)` is true exactly when `o` is a (non-nil) key of the same type with the same raw
+bytes: never for nil, never for another key, never for a key of another type. -/
+theorem equals_iff (k : KeyVal) (o : Option KeyVal) : keyEquals k o = true ↔ o = some k := by
+  cases o with
+  | none => simp [keyEquals]
+  | some o =>
+    obtain ⟨t, r⟩ := k
+    obtain ⟨t', r'⟩ := o
+    simp only [keyEquals, ctEq, Bool.and_eq_true, decide_eq_true_eq, Option.some.injEq, KeyVal.mk.injEq]
+    constructor
+    · rintro ⟨h1, _, h3⟩; exact ⟨h1.symm, h3.symm⟩
+    · rintro ⟨h1, h2⟩; exact ⟨h1.symm, by rw [h2], h2.symm⟩
+
+/-- A private key never `Equals` a public key (64 vs 32 raw bytes), a key never equals nil, and
+two keys that differ in one byte are unequal. -/
+theorem equals_negative (k o : KeyVal) :
+    keyEquals k none = false ∧
+    (k.raw.length ≠ o.raw.length → keyEquals k (some o) = false) ∧
+    (k.raw ≠ o.raw → keyEquals k (some o) = false) ∧
+    (k.typ ≠ o.typ → keyEquals k (some o) = false) := by
+  refine ⟨rfl, ?_, ?_, ?_⟩
+  · intro h
+    cases hb : keyEquals k (some o) with
+    | false => rfl
+    | true => rw [equals_iff] at hb; injection hb with hb; subst hb; exact absurd rfl h
+  · intro h
+    cases hb : keyEquals k (some o) with
+    | false => rfl
+    | true => rw [equals_iff] at hb; injection hb with hb; subst hb; exact absurd rfl h
+  · intro h
+    cases hb : keyEquals k (some o) with
+    | false => rfl
+    | true => rw [equals_iff] at hb; injection hb with hb; subst hb; exact absurd rfl h
+
+/-- A decoded private key `Equals` the original (and only the original). -/
+theorem decoded_equals_original (k : Bytes) (h : k.length = 64) (o : KeyVal) :
+    ∃ k', unmarshalPrivateKey (marshalPrivateKey k) = .ok k' ∧
+      (keyEquals ⟨keyTypeEd25519, k'⟩ (some o) = true ↔ o = ⟨keyTypeEd25519, k⟩) := by
+  refine ⟨k, unmarshal_marshalPrivateKey k h, ?_⟩
+  rw [equals_iff]
+  constructor
+  · intro e; injection e
+  · intro e; rw [e]
+
+/-! ### key generation from a reader -/
+
+/-- `GenerateKeyPairWithReader` succeeds exactly for the Ed25519 key type and a reader that
+delivers at least 32 bytes; the key is `NewKeyFromSeed` of the first 32 bytes. -/
+theorem generate_ok_iff (pubOf : Bytes → Bytes) (typ : Int) (src k p : Bytes) :
+    generateKeyPair pubOf typ src = .ok (k, p) ↔
+      typ = keyTypeEd25519 ∧ 32 ≤ src.length ∧ k = src.take 32 ++ pubOf (src.take 32) ∧ p = pubOf (src.take 32) := by
+  unfold generateKeyPair genKey
+  by_cases ht : typ = keyTypeEd25519
+  · by_cases hl : src.length < 32
+    · simp [ht, hl]
+    · simp only [ht, ne_eq, not_true_eq_false, ↓reduceIte, hl, Res.ok.injEq, Prod.mk.injEq, true_and]
+      constructor
+      · rintro ⟨rfl, rfl⟩; exact ⟨by omega, rfl, rfl⟩
+      · rintro ⟨_, rfl, rfl⟩; exact ⟨rfl, rfl⟩
+  · simp [ht]
+
+/-- Never a panic; an unsupported key type or a short / failing reader is an error. -/
+theorem generate_total (pubOf : Bytes → Bytes) (typ : Int) (src : Bytes) :
+    generateKeyPair pubOf typ src ≠ .panic ∧
+    (typ ≠ keyTypeEd25519 ∨ src.length < 32 → generateKeyPair pubOf typ src = .err) := by
+  unfold generateKeyPair
+  constructor
+  · split
+    · simp
+    · split <;> simp
+  · rintro (h | h)
+    · simp [h]
+    · split
+      · rfl
+      · simp
+
+/-- A generated pair is consistent: the returned public key is the private key's public key,
+both give the same peer ID, and the private key survives the protobuf encoding with that
+public key and ID. -/
+theorem generated_pair_consistent (pubOf : Bytes → Bytes) (hp : ∀ s, (pubOf s).length = 32)
+    (typ : Int) (src k p : Bytes) (h : generateKeyPair pubOf typ src = .ok (k, p)) :
+    k.length = 64 ∧ getPublic k = .ok p ∧ idFromPrivateKey k = .ok (idFromPublicKey p) ∧
+      unmarshalPrivateKey (marshalPrivateKey k) = .ok k ∧
+      unmarshalPublicKeyR (marshalPublicKey p) = .ok p := by
+  obtain ⟨_, hl, rfl, rfl⟩ := (generate_ok_iff pubOf typ src k p).mp h
+  have hs : (src.take 32).length = 32 := by simp; omega
+  obtain ⟨k', hk', hpub, hid⟩ := generated_key_same_public_and_id pubOf (src.take 32) hs (hp _)
+  have hk : (src.take 32 ++ pubOf (src.take 32)).length = 64 := by simp [hp]; omega
+  have hgp : getPublic (src.take 32 ++ pubOf (src.take 32)) = .ok (pubOf (src.take 32)) := by
+    rw [getPublic_of_length _ (by omega)]
+    congr 1
+    generalize src.take 32 = sd at hs ⊢
+    rw [← hs, List.drop_left]
+  refine ⟨hk, hgp, ?_, unmarshal_marshalPrivateKey _ hk, unmarshalPublicKeyR_marshal _ (hp _)⟩
+  unfold idFromPrivateKey
+  rw [hgp]
+
+/-! ### marshalling the `(nil, nil)` a parser may return -/
+
+/-- None of the six marshal functions panics on a nil key: the protobuf and PEM forms report an
+error, the base58 config forms give the empty string (which parses back to "absent"). -/
+theorem marshal_nil_key_total (P : PemCodec) :
+    marshalPrivateKeyOpt none = .err ∧ marshalPublicKeyOpt none = .err ∧
+    marshalPrivKeyPemOpt P none = .err ∧ marshalPubKeyPemOpt P none = .err ∧
+    confMarshalPrivateKeyOpt none = .ok [] ∧ confMarshalPublicKeyOpt none = .ok [] ∧
+    parsePrivateKey P [] = .ok none ∧ parsePublicKey P [] = .ok none :=
+  ⟨rfl, rfl, rfl, rfl, rfl, rfl, rfl, rfl⟩
+
+/-- …so marshalling whatever a PEM parser returned — a key or the `(nil, nil)` of an input without a
+PEM block — never panics, for every input. -/
+theorem marshal_of_parsed_total (P : PemCodec) (d : Bytes) :
+    (∀ k, parsePrivKeyPem P d = .ok k → marshalPrivKeyPemOpt P k ≠ .panic ∧ marshalPrivateKeyOpt k ≠ .panic) ∧
+    (∀ p, parsePubKeyPem P d = .ok p → marshalPubKeyPemOpt P p ≠ .panic ∧ marshalPublicKeyOpt p ≠ .panic) ∧
+    (∀ k, parsePrivateKeyPEM P d = .ok k → marshalPrivKeyPemOpt P k ≠ .panic) ∧
+    (∀ p, parsePublicKeyPEM P d = .ok p → marshalPubKeyPemOpt P p ≠ .panic) := by
+  refine ⟨?_, ?_, ?_, ?_⟩ <;> intro k _ <;> cases k <;> simp [marshalPrivKeyPemOpt, marshalPubKeyPemOpt, marshalPrivateKeyOpt, marshalPublicKeyOpt]
+
+/-- What was wrong before the fix: `k.Raw()` on the nil key panicked. -/
+theorem prefix_marshal_nil_panics (enc : Bytes → Bytes) : marshalKeyOptPreFix enc none = .panic := rfl
+
+/-- A non-nil key marshals as before (the Opt forms agree with the total ones). -/
+theorem marshal_some (P : PemCodec) (k : Bytes) :
+    marshalPrivateKeyOpt (some k) = .ok (marshalPrivateKey k) ∧
+    marshalPrivKeyPemOpt P (some k) = .ok (marshalPrivKeyPem P k) ∧
+    marshalPubKeyPemOpt P (some k) = .ok (marshalPubKeyPem P k) ∧
+    confMarshalPrivateKeyOpt (some k) = .ok (confMarshalPrivateKey k) := ⟨rfl, rfl, rfl, rfl⟩
+
+example : keyEquals ⟨1, List.replicate 64 7⟩ (some ⟨1, List.replicate 32 7⟩) = false ∧
+    keyEquals ⟨1, [1, 2]⟩ (some ⟨1, [1, 3]⟩) = false ∧ keyEquals ⟨1, [1, 2]⟩ (some ⟨1, [1, 2]⟩) = true := by decide
+
+example : generateKeyPair (fun s => s) 1 (List.replicate 40 5) = .ok (List.replicate 64 5, List.replicate 32 5) ∧
+    generateKeyPair (fun s => s) 1 (List.replicate 31 5) = .err ∧ generateKeyPair (fun s => s) 2 (List.replicate 40 5) = .err := by decide
+
 /-- The constants the model uses are the ones in the source (re-extracted on every run): the
 two PEM block types and the prefix on which the config parsers choose PEM over base58. -/
 theorem constants_match_source :
